@@ -11,7 +11,7 @@ import Srtla.Model.Reg
 # The sender shell as a step function
 
 Rust: `src/sender/{packet_handler.rs, uplink_recv.rs, housekeeping.rs}` — the arms of the event
-loop in `src/sender/mod.rs`.  One `Ev` = one arm invocation with the clock value it read; the
+loop in `src/sender/mod.rs`, and `src/sender/connections.rs` (`apply_connection_changes`, event `reload`).  One `Ev` = one arm invocation with the clock value it read; the
 outcomes of the two fallible external calls that are modelled are injected deterministically (also in
 the harness): `send_all_datagrams` on a batch fails for the conn ids in `failNext`, the socket
 re-creation of `reconnect_uplink` (uplink binder) fails for the conn ids in `failBind`.  Everything put on an uplink socket
@@ -36,6 +36,11 @@ structure Sys (F : Type) where
   /-- conn ids whose next socket re-creation in `reconnect_uplink` fails (the uplink binder refuses:
   bind-failure injection); consumed by the next reconnect attempt of that link. -/
   failBind : List Nat := []
+  /-- keys of the shell-owned I/O map (`ConnIoMap`, keyed by conn id).  Only `apply_connection_changes`
+  (`Ev.reload`) and start-up change the key set; the arms of the loop look a link's I/O half up by its conn
+  id and are modelled for links that have one (`Lemmas/ReloadShell.lean`: `IoOk` — the key set is exactly the
+  conn ids of the links — is preserved by every event). -/
+  io : List Nat := []
 
 /-- Observable effects of one event. -/
 structure Out where
@@ -346,6 +351,58 @@ def handleHousekeeping (s : Sys F) (now : Nat) : Sys F × Out :=
   ({ s with links := ls3, reg := reg4, allFailedAt := afa, failBind := hkBindLeft now ls0 s.failBind },
    { wire := w1 ++ w2 ++ w3, hkErr := err })
 
+/-! ## connections.rs: `apply_connection_changes` (the tail of the housekeeping arm after a SIGHUP) -/
+
+/-- `create_connections_from_ips`: one `connect_uplink` attempt per address, in order.  Outcome `k` of `outs`
+belongs to attempt `k`: `some id` = the attempt succeeded and drew the random conn id `id`
+(`rand::rng().next_u64()`), `none` (or no outcome) = it failed (resolve / socket / bind / connect error): the
+address is simply not added.  Every new link is `SrtlaConnection::new_registering(id, label, ip, now_ms())`,
+the constructor of start-up. -/
+def createConnections (now : Nat) : List Nat → List (Option Nat) → List (FLink F)
+  | [], _ => []
+  | a :: rest, outs =>
+    match outs.head?.join with
+    | some id => FLink.newUplink id a now :: createConnections now rest outs.tail
+    | none => createConnections now rest outs.tail
+
+/-- `.filter(|ip| seen.insert(*ip))`: first occurrences, order kept. -/
+def dedupSeen (seen : List Nat) : List Nat → List Nat
+  | [] => []
+  | x :: xs => if seen.contains x then dedupSeen seen xs else x :: dedupSeen (x :: seen) xs
+
+/-- `new_ips_needed`: the de-duplicated desired addresses no CURRENT link (before the removal) carries. -/
+def neededAddrs (ls : List (FLink F)) (newAddrs : List Nat) : List Nat :=
+  (dedupSeen [] newAddrs).filter fun a => !(ls.map (·.addr)).contains a
+
+/-- `connections.retain(|c| desired_labels.contains(&c.label))`. -/
+def retained (ls : List (FLink F)) (newAddrs : List Nat) : List (FLink F) :=
+  ls.filter fun l => newAddrs.contains l.addr
+
+/-- `removed_conn_ids`. -/
+def removedIds (ls : List (FLink F)) (newAddrs : List Nat) : List Nat :=
+  (ls.filter fun l => !newAddrs.contains l.addr).map (·.core.connId)
+
+/-- `conn_io.insert(conn.conn_id, io)` on the key list (a `HashMap`: an existing key is overwritten). -/
+def ioInsert (io : List Nat) (k : Nat) : List Nat := if io.contains k then io else io ++ [k]
+
+/-- `apply_connection_changes(connections, conn_io, new_ips, host, port, last_selected_idx, seq_tracker,
+binder)`.  Retained links keep their whole record and their relative order; new links are appended;
+`last_selected_idx` is forgotten, the tracker entries of the removed conn ids are reset and their I/O halves
+dropped iff at least one link was removed.  NOTHING else is touched: not the registration manager (its
+index-keyed state `pending` / `target` / probe results is NOT remapped when the vector shifts), not
+`all_failed_at`, not the client address, not the configuration. -/
+def applyConnectionChanges (s : Sys F) (now : Nat) (newAddrs : List Nat) (outs : List (Option Nat)) : Sys F :=
+  let kept := retained s.links newAddrs
+  let removed := removedIds s.links newAddrs
+  let changed := kept.length != s.links.length
+  let added := createConnections now (neededAddrs s.links newAddrs) outs
+  { s with
+    links := kept ++ added
+    lastSelected := if changed then none else s.lastSelected
+    trk := if changed then removed.foldl Tracker.removeConnection s.trk else s.trk
+    io := (added.map (·.core.connId)).foldl ioInsert
+            (if changed then s.io.filter (fun k => !removed.contains k) else s.io) }
+
 /-! ## Events -/
 
 /-- The four verdict fields of the link at index `idx` are overwritten, nothing else (no link: nothing). -/
@@ -374,6 +431,18 @@ inductive Ev where
   calls it right before `handle_housekeeping`: the real arm is the two-event sequence
   `[.syncTimeout, .hk now]`.  (`apply_stall_gate` performs the same write in every selection pass.) -/
   | syncTimeout
+  /-- the tail of the housekeeping arm when a SIGHUP queued a new address list (`pending_changes.take()` in
+  `src/sender/mod.rs`, after the stamping loop and the stats publish): `apply_connection_changes` with the
+  desired addresses `newAddrs`.  `now` is the clock `connect_uplink` reads for the new links; `outs` are the
+  outcomes of the `connect_uplink` attempts, one per needed address in order (`createConnections`): inputs of
+  the event, because the conn ids are random and socket creation is the operating system's.  Theorems that
+  need the new ids to differ from the present ones take that as an explicit hypothesis. -/
+  | reload (now : Nat) (newAddrs : List Nat) (outs : List (Option Nat))
+
+/-- Is the event a reload (the only event that changes the link SET)? -/
+def Ev.isReload : Ev → Bool
+  | .reload _ _ _ => true
+  | _ => false
 
 def step (s : Sys F) : Ev → Sys F × Out
   | .client now pkt => handleSrtPacket s pkt now
@@ -387,5 +456,6 @@ def step (s : Sys F) : Ev → Sys F × Out
   | .stamp idx weak ld ccb cct => ({ s with links := stampLink s.links idx weak ld ccb cct }, {})
   | .syncTimeout =>
     ({ s with links := s.links.map fun l => { l with connTimeoutMs := s.cfg.connTimeoutMs } }, {})
+  | .reload now newAddrs outs => (applyConnectionChanges s now newAddrs outs, {})
 
 end Srtla.Sys
